@@ -777,6 +777,10 @@ def _minval(fn, x, depth=0):
         return fn.cval(x)
     if depth > 6:
         return None
+    if v.get('k') == 'DeclRefExpr' and v.get('rk') == 'local':
+        src = fn.def_expr(x)
+        if src != x:
+            return _minval(fn, src, depth + 1)
     if v.get('k') == 'ConditionalOperator':
         a, b = _minval(fn, v['then'], depth + 1), _minval(fn, v['else'], depth + 1)
         return None if a is None or b is None else min(a, b)
